@@ -303,6 +303,19 @@ pub fn gen_sched(cs: &mut ChoiceStream) -> SchedCfg {
     let mut s = SchedCfg::default();
     s.stick_pct = *pick(cs, "stick", &[50u32, 0, 90, 99]);
     s.hang_after_ns = 300_000_000_000;
+    // slow nodes: in a quarter of the runs the I/O thread is descheduled now and then when it
+    // polls (so that several things become pending at once), in another quarter the callers are
+    match cs.choose("stall_profile", 4) {
+        1 => {
+            s.io_stall_permille = 60;
+            s.io_stall_max_ns = *pick(cs, "io_stall_max", &[100_000u64, 2_000_000]);
+        }
+        2 => {
+            s.client_stall_permille = 20;
+            s.client_stall_max_ns = *pick(cs, "cl_stall_max", &[100_000u64, 1_000_000]);
+        }
+        _ => {}
+    }
     s
 }
 
